@@ -81,6 +81,7 @@ def run(idx: ProgramIndex, rep: Report, tier: str):
     lazy_registration(idx, rep)
     copyable_caches(idx, rep)
     picklable_closures(idx, rep)
+    mirrored_buffers(idx, rep)
 
 
 # ---- C18-7 ---------------------------------------------------------------------------------------------------------
@@ -842,3 +843,28 @@ def picklable_closures(idx: ProgramIndex, rep: Report):
             "the string form stores no local function" if not stored else
             "for a parameter given by name register_prior wraps it in the local function(s) %s and stores them in self._priors: every prior registered by name (register_prior(name, prior, 'param')) makes the model unpicklable" % ", ".join("`%s`" % x for x in sorted(set(stored))), {})
     rep.floor("C18-10", "register_prior sites", n, 30)
+
+
+# ---- C18-11 --------------------------------------------------------------------------------------------------------
+def mirrored_buffers(idx: ProgramIndex, rep: Report):
+    """Transformed priors keep their parameters twice: as `_transformed_<name>` buffers (what state_dict carries) and as attributes of
+    `base_dist` (what log_prob evaluates).  At construction the two are the same tensor objects; every operation that REPLACES the buffers
+    (Module._apply: .double() / .to() / .cuda()) or fills them from a state_dict while the prior is a sub-module must copy them over to
+    base_dist again - otherwise state_dict and behaviour diverge.  The re-synchronisation helper must be called from each such entry point."""
+    rep.rule("C18-11", "a prior that mirrors its buffers in base_dist re-synchronises the mirror wherever the buffers are replaced: in _apply (dtype / device moves) as well as after loading")
+    P = idx.find_class("Prior")
+    helper = "_load_transformed_to_base_dist"
+    try:
+        idx.function("gpytorch.priors.utils", helper)
+    except AnalysisError:
+        raise AnalysisError("C18-11: gpytorch.priors.utils.%s vanished (anchor)" % helper)
+    callers = {name for name, m in P.methods.items() if any(isinstance(c.func, ast.Name) and c.func.id == helper for c in calls_in(m.node))}
+    n = 0
+    for entry, why in (("load_state_dict", "a state_dict loaded into the prior itself"),
+                       ("_apply", "Module._apply replaces every buffer by fn(buffer): .double(), .float(), .to(device)")):
+        n += 1
+        ok = entry in callers
+        rep.add("C18-11", "%s:Prior.%s[mirror of the _transformed_ buffers]" % (P.module.name, entry), (P.methods[entry].where if entry in P.methods else P.where), ok,
+                "calls %s" % helper if ok else
+                "Prior does not re-synchronise base_dist in %s (%s): after model.double() the _transformed_* buffers are new tensors, base_dist keeps the old ones; a later load_state_dict into the model updates the buffers (and state_dict() shows the loaded values) while log_prob goes on using the constructor values" % (entry, why), {})
+    rep.floor("C18-11", "buffer-replacing entry points of Prior", n, 2)
